@@ -204,7 +204,7 @@ fn request_of(plan: &SPlan) -> (String, String, String, Vec<(String, String)>, V
     // (sni, method, path, headers, body)
     let mut headers: Vec<(String, String)> = vec![("user-agent".into(), "sim/1.0".into())];
     if plan.with_credentials {
-        headers.push(("proxy-authorization".into(), basic_auth("u0", "p0")));
+        headers.push(("proxy-authorization".into(), basic_auth("u0", "p0-secret-password")));
     }
     let speed_sni = |via_main: bool| if via_main { MAIN } else { SPEED }.to_string();
     let prefix = |via_main: bool| if via_main { "/speed" } else { "" };
